@@ -388,6 +388,11 @@ def write_evidence(ctx: Ctx, spec: dict, known_seen: dict, nviol: int) -> None:
         "escalated_search": ctx.escalated,
         "driver_calls": ctx.driver.calls if ctx.driver else 0,
     }
+    hist: Dict[str, int] = {}
+    for v in ctx.violations:
+        k = jdump(v["signature"])
+        hist[k] = hist.get(k, 0) + 1
+    cov["violation_signatures"] = dict(sorted(hist.items(), key=lambda kv: -kv[1])[:60])
     if ctx.exhaustive is not None:
         cov["exhaustive"] = ctx.exhaustive
     cov.update(ctx.extra)
